@@ -271,7 +271,8 @@ CONFIG = {
                       "(what D.FillBytes of BitLen bytes gives).",
         "trusted_base": COMMON_TB + ["Mathlib v4.33.0", "PatVerif/Exec references (validated vs crypto/elliptic, circl)"],
         "assumptions": ["the NIST curve groups have prime order"],
-        "extra_modules": ["PatVerif.Proofs.Group", "PatVerif.Proofs.Sig"],
+        "extractors": [{"name": "skeleton", "out": "Skeletons.lean"}],
+        "extra_modules": ["PatVerif.Proofs.Group", "PatVerif.Proofs.Sig", "PatVerif.Proofs.SkelEcdsa"],
         "contradicts": "PatVerif.Props.C12",
     },
     "C13": {
@@ -286,7 +287,8 @@ CONFIG = {
                       "the equality is observed. The s390x assembly path is not built here.",
         "trusted_base": COMMON_TB + ["crypto/ecdsa as the reference verdict", "cryptobyte ASN.1 semantics as restated in Model/DER.lean", "Mathlib (algebra)"],
         "assumptions": [],
-        "extra_modules": ["PatVerif.Proofs.DER", "PatVerif.Proofs.Sig"],
+        "extractors": [{"name": "skeleton", "out": "Skeletons.lean"}],
+        "extra_modules": ["PatVerif.Proofs.DER", "PatVerif.Proofs.Sig", "PatVerif.Proofs.SkelEcdsa"],
         "contradicts": "PatVerif.Props.C13",
     },
     "C14": {
@@ -324,11 +326,11 @@ CONFIG = {
                         "Model/GoU64.lean reads Go's uint64 operators, bits.Mul64/Add64 and binary.LittleEndian correctly; felimbs' functional reading "
                         "of pointer code is right where its alias check passes"],
         "extractors": [{"name": "sclimbs", "out": "ScLimbs.lean"}, {"name": "felimbs", "out": "FeLimbs.lean"},
-                       {"name": "edpoints", "out": "EdPoints.lean"}],
+                       {"name": "edpoints", "out": "EdPoints.lean"}, {"name": "skeleton", "out": "Skeletons.lean"}],
         "aux_driver": {"exe": "scdriver", "ops": ["c14.screduce", "c14.scmuladd", "c14.sccanon", "c14.fe", "c14.fel", "c14.pt"]},
         "extra_modules": ["PatVerif.Proofs.Sig", "PatVerif.Proofs.DER", "PatVerif.Proofs.ScReduce", "PatVerif.Proofs.ScMulAdd", "PatVerif.Proofs.ScScalar",
                           "PatVerif.Proofs.FeCarry", "PatVerif.Proofs.FeMul", "PatVerif.Proofs.FeMisc", "PatVerif.Proofs.FeBytes", "PatVerif.Proofs.FePow",
-                          "PatVerif.Proofs.FeAbs", "PatVerif.Proofs.FeField", "PatVerif.Proofs.FeSqrt", "PatVerif.Proofs.EdPoints", "PatVerif.Proofs.EdDecode"],
+                          "PatVerif.Proofs.FeAbs", "PatVerif.Proofs.FeField", "PatVerif.Proofs.FeSqrt", "PatVerif.Proofs.EdPoints", "PatVerif.Proofs.EdDecode", "PatVerif.Proofs.SkelEd25519"],
         "contradicts": "PatVerif.Props.C14",
     },
     "C15": {
@@ -346,11 +348,11 @@ CONFIG = {
         "assumptions": ["A lies in the prime-order subgroup for unblind_blind",
                         "Model/GoInt.lean reads Go's int64 operators correctly where the generated side conditions hold"],
         "extractors": [{"name": "sclimbs", "out": "ScLimbs.lean"}, {"name": "felimbs", "out": "FeLimbs.lean"},
-                       {"name": "edpoints", "out": "EdPoints.lean"}],
+                       {"name": "edpoints", "out": "EdPoints.lean"}, {"name": "skeleton", "out": "Skeletons.lean"}],
         "aux_driver": {"exe": "scdriver", "ops": ["c14.screduce", "c14.scmuladd", "c14.sccanon", "c14.fe", "c14.fel", "c14.pt"]},
         "extra_modules": ["PatVerif.Proofs.Group", "PatVerif.Proofs.Sig", "PatVerif.Proofs.ScReduce", "PatVerif.Proofs.ScMulAdd", "PatVerif.Proofs.ScScalar",
                           "PatVerif.Proofs.FeCarry", "PatVerif.Proofs.FeMul", "PatVerif.Proofs.FeMisc", "PatVerif.Proofs.FeBytes", "PatVerif.Proofs.FePow",
-                          "PatVerif.Proofs.FeAbs", "PatVerif.Proofs.FeField", "PatVerif.Proofs.FeSqrt", "PatVerif.Proofs.EdPoints", "PatVerif.Proofs.EdDecode"],
+                          "PatVerif.Proofs.FeAbs", "PatVerif.Proofs.FeField", "PatVerif.Proofs.FeSqrt", "PatVerif.Proofs.EdPoints", "PatVerif.Proofs.EdDecode", "PatVerif.Proofs.SkelEd25519"],
         "contradicts": "PatVerif.Props.C15",
     },
     "C16": {
